@@ -133,17 +133,21 @@ EvReduceOps(e) ==
 \* C12
 EvTighten(e) ==
   LET rows == e.rows  cols == e.cols
-      S == PSol(rows, cols)
+      S == IF e.wide THEN {} ELSE PSol(rows, cols)
       lb == e.tight[1]  ub == e.tight[2]
   IN IF ~WellFormed(rows, cols) THEN {"outside_domain"} ELSE
      PFail("shape", Len(lb) = Len(cols) /\ Len(ub) = Len(cols) /\ Len(e.rowb) = Len(rows) /\ Len(e.ncomb) = Len(rows)
                     /\ Len(e.colb[1]) = Len(cols) /\ Len(e.colb[2]) = Len(cols))
-     \cup PFail("contain", \A x \in S : \A j \in DOMAIN cols : lb[j] <= x[j] /\ x[j] <= ub[j])
+     \* wide boxes are not enumerated: row bounds and combination counts through the closed forms (PuanPoly.RowBoundsExact states
+     \* that they equal the enumeration), containment of solutions is left to the enumerable cases
+     \cup (IF e.wide THEN {} ELSE
+           PFail("contain", \A x \in S : \A j \in DOMAIN cols : lb[j] <= x[j] /\ x[j] <= ub[j])
+           \cup PFail("contra_only_if_empty", (\E j \in DOMAIN cols : lb[j] > ub[j]) => S = {}))
      \cup PFail("no_widen", \A j \in DOMAIN cols : lb[j] >= cols[j].lo /\ ub[j] <= cols[j].hi)
-     \cup PFail("contra_only_if_empty", (\E j \in DOMAIN cols : lb[j] > ub[j]) => S = {})
-     \cup PFail("rowb_exact", \A i \in DOMAIN rows : LET v == RowRange(rows[i], cols) IN e.rowb[i] = << SetMin(v), SetMax(v) >>)
+     \cup PFail("rowb_exact", \A i \in DOMAIN rows : IF e.wide THEN e.rowb[i] = << RowLb(rows[i], cols), RowUb(rows[i], cols) >>
+                                                     ELSE LET v == RowRange(rows[i], cols) IN e.rowb[i] = << SetMin(v), SetMax(v) >>)
      \cup PFail("colb", \A j \in DOMAIN cols : e.colb[1][j] = cols[j].lo /\ e.colb[2][j] = cols[j].hi)
-     \cup PFail("ncomb", \A i \in DOMAIN rows : e.ncomb[i] = NComb(rows[i], cols))
+     \cup PFail("ncomb", \A i \in DOMAIN rows : e.ncomb[i] = (IF e.wide THEN NCombFormula(rows[i], cols) ELSE NComb(rows[i], cols)))
 
 \* C19
 EvClassify(e) ==
@@ -177,7 +181,7 @@ EvPartition(e) ==
   PFail("partition", /\ { e.bool_idx[i] : i \in DOMAIN e.bool_idx } = BoolIdx(e.vars) /\ Len(e.bool_idx) = Cardinality(BoolIdx(e.vars))
                      /\ { e.int_idx[i] : i \in DOMAIN e.int_idx } = IntIdx(e.vars) /\ Len(e.int_idx) = Cardinality(IntIdx(e.vars)))
 EvLists(e) ==
-  PFail("from_list_bool", e.bool_arr = FromListBool(e.lst, e.ctx))
+  PFail("from_list_bool", e.bool_ok => e.bool_arr = FromListBool(e.lst, e.ctx))
   \cup PFail("from_list_int", e.int_arr = FromListInt(e.lst, e.ctx))
   \cup PFail("from_list_nested", /\ e.bool_nested = [ g \in DOMAIN e.lsts |-> FromListBool(e.lsts[g], e.ctx) ]
                                  /\ e.int_nested = [ g \in DOMAIN e.lsts |-> FromListInt(e.lsts[g], e.ctx) ])
